@@ -157,6 +157,40 @@ def text_view(v):
     return str(v)
 
 
+def cli_reads_text(ctx, texts, tmp):
+    """the command-line tool hands the text of a saved program to the loader unchanged (apart from the line terminators): what it parses is
+    what `to_string()` wrote, also when string values hold form feeds, vertical tabs, separators, NEL or U+2028/9"""
+    from click.testing import CliRunner
+    import mpilot.cli.mpilot as cli
+    from mpilot.exceptions import MPilotError
+    from .. import parsing
+    captured = {}
+    orig = cli.Program.__dict__["from_source"]
+
+    def fake(cls, source, libraries=(), working_dir=None):
+        captured["source"] = source
+        raise MPilotError("stop here")
+    cli.Program.from_source = classmethod(fake)
+    try:
+        runner = CliRunner()
+        for k, t in enumerate(texts):
+            path = os.path.join(tmp, "saved%d.mpt" % (k % 6))
+            with open(path, "w", encoding="utf-8", newline="") as f:
+                f.write(t + "\n")
+            captured.clear()
+            runner.invoke(cli.main, ["eems-csv", path])
+            ctx.case("cli-read " + t, sample=None)
+            ctx.count("cli_read_cases")
+            if "source" not in captured:
+                ctx.fail("the command-line tool did not hand the saved program to the loader", {"text": t})
+                continue
+            a, b = parsing.real_parse(t), parsing.real_parse(captured["source"])
+            if a != b:
+                ctx.fail("the command-line tool loads a saved program as a different text: parse trees differ", {"text": t, "handed_to_loader": captured["source"][:800]})
+    finally:
+        cli.Program.from_source = orig
+
+
 def poison(rng, tmp):
     """another text handled just before: an EEMS 2.0 file that loads, or one that is rejected after its first command"""
     from mpilot.program import Program
@@ -245,6 +279,7 @@ def run(ctx):
                 ctx.fail("to_string() differs after the program was run: the run changed the program's arguments", dict(desc, after_run=after[:800]))
         if outs[0] != outs[1]:
             ctx.fail("original and reloaded program behave differently when run: %r vs %r" % (outs[0][0], outs[1][0]), desc)
+    cli_reads_text(ctx, [t for t in texts if any(ord(ch) in (0x0b, 0x0c, 0x1c, 0x1d, 0x1e, 0x85, 0x2028, 0x2029) for ch in t)][:40] + texts[:10], tmp)
     answers = model.ask(lines)
     for t, desc, ans in zip(texts, descs, answers):
         if ans == "outside":
